@@ -583,7 +583,7 @@ pub fn check_cmd(tier: &str, seed: u64) -> i32 {
     }
     let known = crate::load_known();
     let fx = load_fixtures();
-    let _ = std::fs::create_dir_all("/verif/replays");
+    let _ = std::fs::create_dir_all(format!("{}/replays", crate::out_root()));
     let mut new_violations = 0;
     let mut known_hit: BTreeMap<String, u64> = BTreeMap::new();
     // aborts: bisect the batch down to one input
@@ -608,7 +608,7 @@ pub fn check_cmd(tier: &str, seed: u64) -> i32 {
             *known_hit.entry(format!("{} {}", k.signature, k.what)).or_default() += 1;
             continue;
         }
-        let path = format!("/verif/replays/C03-abort-{:016x}-{}.json", hash_bytes(&inp.bytes), lo);
+        let path = format!("{}/replays/C03-abort-{:016x}-{}.json", crate::out_root(), hash_bytes(&inp.bytes), lo);
         let rf = C03Replay {
             property: "C03".into(),
             signature: sig.clone(),
@@ -655,7 +655,7 @@ pub fn check_cmd(tier: &str, seed: u64) -> i32 {
             }
         };
         let min = minimise_bytes(entry, sig, &culprit);
-        let path = format!("/verif/replays/C03-{:016x}-{}.json", crate::rng::hash_str(&format!("{sig}|{entry}")), rec.first_index);
+        let path = format!("{}/replays/C03-{:016x}-{}.json", crate::out_root(), crate::rng::hash_str(&format!("{sig}|{entry}")), rec.first_index);
         let rf = C03Replay {
             property: "C03".into(),
             signature: full.clone(),
@@ -716,8 +716,8 @@ pub fn check_cmd(tier: &str, seed: u64) -> i32 {
         "wall_s": wall,
         "violations": new_violations,
     });
-    let _ = std::fs::create_dir_all("/verif/evidence");
-    std::fs::write("/verif/evidence/C03.json", serde_json::to_string_pretty(&ev).unwrap()).unwrap();
+    let _ = std::fs::create_dir_all(format!("{}/evidence", crate::out_root()));
+    std::fs::write(format!("{}/evidence/C03.json", crate::out_root()), serde_json::to_string_pretty(&ev).unwrap()).unwrap();
     eprintln!(
         "C03 {tier}: {} inputs, {} parses ({} ok, {} rejected), {} panic signatures, {} aborts, {} new violations, {:.1}s",
         total.inputs,
